@@ -4,9 +4,13 @@
 //
 // Three drivers run the REAL mux:
 //   - lookup:   ServeMux.Handler / IQHandler / MessageHandler / PresenceHandler
-//   - dispatch: ServeMux.HandleXMPP on a token reader that behaves like the one
-//     Session.Serve hands to handlers (the element's tokens, its end element,
-//     then io.EOF), with recording handlers that read a scripted number of tokens
+//   - dispatch: ServeMux.HandleXMPP on a token reader over the element's tokens
+//     and its end element, of either kind xml.TokenReader permits: the terminal
+//     error (io.EOF or another) is returned by a separate later call - what
+//     xml.Decoder and the reader Session.Serve hands to handlers do - or TOGETHER
+//     WITH THE LAST TOKEN - what readers built with xmlstream.Wrap / Token /
+//     stanza.Message.Wrap do; with recording handlers that read a scripted
+//     number of tokens
 //   - session:  the same elements through a real served session (hx.NewReadySession)
 //
 // The oracle restates the property in Go on the observables (which handler
@@ -73,7 +77,8 @@ type dcase struct {
 	Name   [2]string `json:"name"`
 	Attrs  []attrS   `json:"attrs,omitempty"`
 	Toks   []tokS    `json:"toks,omitempty"`
-	UErr   bool      `json:"uerr,omitempty"`
+	UErr   bool      `json:"uerr,omitempty"`  // the reader ends with an error other than io.EOF
+	UWith  bool      `json:"uwith,omitempty"` // the reader returns its terminal error together with its last token
 	Script []beh     `json:"script,omitempty"`
 	// lookup cases
 	Tbl     int         `json:"tbl,omitempty"`
@@ -198,20 +203,28 @@ func newMux(ns string, ops []pat, x *run) (m *mux.ServeMux, refused string) {
 type sliceRW struct {
 	toks    []xml.Token
 	i       int
-	uerr    bool
+	uerr    bool // the terminal error is errUnderlying instead of io.EOF
+	with    bool // the last token is returned together with the terminal error
 	written []xml.Token
+}
+
+func (r *sliceRW) term() error {
+	if r.uerr {
+		return errUnderlying
+	}
+	return io.EOF
 }
 
 func (r *sliceRW) Token() (xml.Token, error) {
 	if r.i < len(r.toks) {
 		t := r.toks[r.i]
 		r.i++
+		if r.with && r.i == len(r.toks) {
+			return t, r.term()
+		}
 		return t, nil
 	}
-	if r.uerr {
-		return nil, errUnderlying
-	}
-	return nil, io.EOF
+	return nil, r.term()
 }
 func (r *sliceRW) EncodeToken(t xml.Token) error {
 	r.written = append(r.written, xml.CopyToken(t))
@@ -256,7 +269,7 @@ func runDirect(c *dcase) obs {
 	if refused != "" {
 		return obs{Refused: refused}
 	}
-	rw := &sliceRW{uerr: c.UErr}
+	rw := &sliceRW{uerr: c.UErr, with: c.UWith}
 	for _, t := range c.Toks {
 		rw.toks = append(rw.toks, realTok(t))
 	}
@@ -460,11 +473,22 @@ func (x *runner) oracle(c *dcase, o obs, via string) []string {
 		x.fail(pre+"panic", "HandleXMPP panicked: "+o.Panic, c)
 		return []string{"panic"}
 	}
+	// The property is about elements whose tokens close them. How the reader
+	// ends after that (io.EOF or another error, by a separate call or together
+	// with the last token) must make no difference to what is dispatched.
 	closeIdx := closedAt(c.Toks)
-	if closeIdx < 0 || c.UErr {
+	if closeIdx < 0 {
 		return []string{"malformed"}
 	}
 	classes := []string{}
+	switch {
+	case c.UWith && c.UErr:
+		classes = append(classes, "reader-last-token-with-error")
+	case c.UWith:
+		classes = append(classes, "reader-last-token-with-eof")
+	case c.UErr:
+		classes = append(classes, "reader-error-after-end")
+	}
 	start := startOf(c)
 	full := []xml.Token{start}
 	inner := []xml.Token{}
@@ -915,8 +939,8 @@ func (x *runner) emitDispatch(c *dcase, o obs) {
 		}
 		obsTerm = t
 	}
-	x.dc.Add(fmt.Sprintf("mkdcase %s %s %s [%s] [%s] %s [%s] %s %s", coqOps(c.Ops), coqSpace(c.NS), coqName(c.Name[0], c.Name[1]),
-		strings.Join(attrs, "; "), strings.Join(toks, "; "), hx.CoqBool(c.UErr), strings.Join(script, "; "),
+	x.dc.Add(fmt.Sprintf("mkdcase %s %s %s [%s] [%s] (mkterm %s %s) [%s] %s %s", coqOps(c.Ops), coqSpace(c.NS), coqName(c.Name[0], c.Name[1]),
+		strings.Join(attrs, "; "), strings.Join(toks, "; "), hx.CoqBool(c.UErr), hx.CoqBool(c.UWith), strings.Join(script, "; "),
 		hx.CoqBool(o.Refused == ""), obsTerm), c)
 }
 
@@ -1068,6 +1092,11 @@ func main() {
 				x.dispatch(&c)
 				cc := corpus[i]
 				x.session(&cc)
+				// the same element from a reader that returns its last token
+				// together with io.EOF
+				cw := corpus[i]
+				cw.UWith = true
+				x.dispatch(&cw)
 			}
 		}
 		nd, ns := 4000, 60
@@ -1080,6 +1109,7 @@ func main() {
 		x.exhaustiveLookups(r)
 		x.exhaustiveChildren(r, map[bool]int{false: 3, true: 4}[o.Thorough() || o.Search])
 		x.nearEmpty(r)
+		x.ownNames(r, o.Thorough() || o.Search)
 		x.registrations(r)
 		for i := 0; i < nd; i++ {
 			c := genDispatch(r)
@@ -1090,12 +1120,16 @@ func main() {
 			x.session(&c)
 		}
 		res.Extra["exhaustive_small_scope"] = "all 512 subsets of the 9 patterns over spaces {x,y,wildcard} x locals {a,b,wildcard}, per table (top, iq, message, presence), " +
-			"x 9 incoming names, through the lookup methods and through HandleXMPP; all child sequences up to length 3 over 4 names"
+			"x 9 incoming names, through the lookup methods and through HandleXMPP; all child sequences up to length 3 over 4 names, each from a reader that " +
+			"ends by a separate (nil, io.EOF) and from one that returns the stanza's end element together with io.EOF; all 512 subsets of the 9 patterns over " +
+			"{the stanza's own name space, the other stanza name space, wildcard} x {the stanza element's own local name, a, wildcard} per stanza kind, " +
+			"against the empty stanza and stanzas with children named like the stanza itself"
 	}
 	res.Rule = "cases: corpus; exhaustive pattern subsets per table through the four lookup methods and through HandleXMPP; all short child sequences; " +
 		"registration sequences with nil / nil-func / duplicate / stanza-name entries; seeded elements (iq/message/presence/other, valid and odd types, " +
 		"0-4 children with nesting, text, whitespace and comments in between, handlers reading 0/some/all/too many tokens, failing handlers) plus a malformed " +
-		"stream (truncated, extra end tags, failing reader); a sample replayed through a real served session. distinct = hash of the case; " +
+		"stream (truncated, extra end tags, failing reader); input readers of both kinds (terminal error by a separate call / together with the last token); " +
+		"pattern universes with the stanza element's own local name and name space; a sample replayed through a real served session. distinct = hash of the case; " +
 		"non-trivial = at least one pattern registered and mux.New succeeded"
 	per := 1500
 	res.CaseFiles = append(res.CaseFiles, x.dc.Write(o.Out, per)...)
